@@ -9,6 +9,7 @@ What is carried over (everything table-like or flag-like that the C14 theorems h
   * the range-check macros of janet.h, `digit_lookup[]`, the scan length limit
   * vm.c: method names used by each arithmetic opcode, look-up order of janet_binop_call
   * corelib.c: opcode, nullary and unary constants of every variadic operator
+  * math.c: registration name -> function for math/floor ceil trunc round abs gcd lcm; janet_gcd / janet_lcm bodies (structural match)
 The shapes of the macro bodies / functions that the hand-written Lean model mirrors are asserted; if the source no longer
 has that shape an ExtractError is raised (reported by the check as a broken tie)."""
 import re
@@ -353,7 +354,93 @@ def extract(tree):
     if len(fns) != 19:
         raise ExtractError("expected 13 variadic operators + 6 comparators in corelib.c, found %d" % len(fns))
     g["coreFns"] = fns
+    g["mathReg"] = extract_math(tree)
     return g
+
+
+MATH_MODELLED = ("math/floor", "math/ceil", "math/trunc", "math/round", "math/abs", "math/gcd", "math/lcm")
+
+
+def extract_math(tree):
+    """math.c: which C function each of the modelled `math/...` names is registered to, resolved through the MATHOP macros to the
+    libm function it applies / to janet_gcd, janet_lcm; the bodies the model mirrors (Int64/MathFns.lean) are matched *structurally*
+    (parameter and local names free, whitespace / comments / redundant parentheses around conditions free)."""
+    mc = csrc.strip_comments(csrc.read(tree, "src/core/math.c"))
+    W = r"\s*"
+    # the two macros: fixarity 1 / 2, janet_getnumber on every argument, wrap_number(fop(...))
+    m1 = _norm(_macro(mc, "JANET_DEFINE_NAMED_MATHOP"))
+    if not re.fullmatch(r"\(janet_name, fop, doc\) JANET_CORE_FN\(janet_##fop, \"\(math/\" janet_name \" x\)\", doc\) \{ janet_fixarity\(argc, 1\); "
+                        r"double (\w+) = janet_getnumber\(argv, 0\); return janet_wrap_number\(fop\(\1\)\); \}", m1):
+        raise ExtractError("JANET_DEFINE_NAMED_MATHOP changed: " + m1[:200])
+    if _norm(_macro(mc, "JANET_DEFINE_MATHOP")) != "(fop, doc) JANET_DEFINE_NAMED_MATHOP(#fop, fop, doc)":
+        raise ExtractError("JANET_DEFINE_MATHOP changed")
+    unary = {}          # C function janet_<fop> -> (janet name, libm function)
+    for m in re.finditer(r"^JANET_DEFINE_MATHOP\(\s*(\w+)\s*,", mc, re.M):
+        unary["janet_" + m.group(1)] = (m.group(1), m.group(1))
+    for m in re.finditer(r"^JANET_DEFINE_NAMED_MATHOP\(\s*\"([^\"]+)\"\s*,\s*(\w+)\s*,", mc, re.M):
+        unary["janet_" + m.group(2)] = (m.group(1), m.group(2))
+    # janet_gcd: NaN test, infinity test, Euclid's loop over fmod, return
+    sig = re.search(r"static\s+double\s+janet_gcd\s*\(\s*double\s+(\w+)\s*,\s*double\s+(\w+)\s*\)", mc)
+    if not sig:
+        raise ExtractError("janet_gcd(double, double) not found")
+    X, Y = sig.group(1), sig.group(2)
+    body = re.sub(r"#\s*ifdef\s+NAN\s*return\s+NAN\s*;\s*#\s*else\s*return\s+0\.0\s*/\s*0\.0\s*;\s*#\s*endif", "return NAN;", csrc.func_body(mc, "janet_gcd"))
+    body = _norm(body)
+    def cond_or(f):
+        return r"\(%s\(?%s\(%s%s%s\)%s\)?%s\|\|%s\(?%s\(%s%s%s\)%s\)?%s\)" % (W, f, W, X, W, W, W, W, f, W, Y, W, W, W)
+    pat = (r"\{?%sif%s%s%s\{?%sreturn NAN;%s\}?%sif%s%s%s\{?%sreturn INFINITY;%s\}?%s"
+           r"while%s\(%s%s%s!=%s0(?:\.0)?%s\)%s\{%s(?:const )?double (?P<t>\w+) = %s;%s%s = fmod\(%s%s%s,%s%s%s\);%s%s = (?P=t);%s\}%sreturn %s;%s\}?"
+           % (W, W, cond_or("isnan"), W, W, W, W, W, cond_or("isinf"), W, W, W, W,
+              W, W, Y, W, W, W, W, W, Y, W, Y, W, X, W, W, Y, W, W, X, W, W, X, W))
+    if not re.fullmatch(pat, body):
+        raise ExtractError("janet_gcd: body no longer `NaN test; infinity test; while (y != 0) { t = y; y = fmod(x, y); x = t; } return x`: " + body[:300])
+    sig = re.search(r"static\s+double\s+janet_lcm\s*\(\s*double\s+(\w+)\s*,\s*double\s+(\w+)\s*\)", mc)
+    if not sig:
+        raise ExtractError("janet_lcm(double, double) not found")
+    X, Y = sig.group(1), sig.group(2)
+    body = _norm(csrc.func_body(mc, "janet_lcm"))
+    if not re.fullmatch(r"\{?%sreturn%s\(?%s\(%s%s%s/%sjanet_gcd\(%s%s%s,%s%s%s\)%s\)%s\*%s%s%s\)?%s;%s\}?" % (W, W, W, W, X, W, W, W, X, W, W, Y, W, W, W, W, Y, W, W, W), body):
+        raise ExtractError("janet_lcm: body no longer `(x / janet_gcd(x, y)) * y`: " + body[:200])
+    binary = {}
+    for cf, inner in (("janet_cfun_gcd", "janet_gcd"), ("janet_cfun_lcm", "janet_lcm")):
+        mm = re.search(r"JANET_CORE_FN\(\s*%s\s*," % cf, mc)
+        if not mm:
+            raise ExtractError("JANET_CORE_FN(%s, ...) not found" % cf)
+        i = mm.end()
+        depth = 1
+        while depth:                                  # skip to the end of the JANET_CORE_FN( ... ) header (string literals contain parentheses)
+            c = mc[i]
+            if c == '"':
+                i += 1
+                while mc[i] != '"':
+                    i += 2 if mc[i] == "\\" else 1
+            elif c == "(":
+                depth += 1
+            elif c == ")":
+                depth -= 1
+            i += 1
+        i = mc.index("{", i)
+        b = _norm(mc[i:csrc.match_brace(mc, i)])
+        if not re.fullmatch(r"\{?%sjanet_fixarity\(argc, 2\);%sdouble (\w+) = janet_getnumber\(argv, 0\);%sdouble (\w+) = janet_getnumber\(argv, 1\);%s"
+                            r"return janet_wrap_number\(%s\(\1, \2\)\);%s\}?" % (W, W, W, W, inner, W), b):
+            raise ExtractError("%s changed: %s" % (cf, b[:200]))
+        binary[cf] = inner
+    reg = []
+    for m in re.finditer(r"JANET_CORE_REG\(\s*\"(math/[^\"]+)\"\s*,\s*(\w+)\s*\)", mc):
+        name, cf = m.group(1), m.group(2)
+        if name not in MATH_MODELLED:
+            continue
+        if cf in unary:
+            if "math/" + unary[cf][0] != name:
+                raise ExtractError("%s registered to %s, which is defined as math/%s" % (name, cf, unary[cf][0]))
+            reg.append((name, unary[cf][1]))
+        elif cf in binary:
+            reg.append((name, binary[cf]))
+        else:
+            raise ExtractError("%s registered to unknown function %s" % (name, cf))
+    if sorted(n for n, _ in reg) != sorted(MATH_MODELLED):
+        raise ExtractError("math.c: registrations of %s not all found (%s)" % (", ".join(MATH_MODELLED), reg))
+    return sorted(reg)
 
 
 def _s(x):
@@ -410,6 +497,9 @@ def render(tree):
     o.append("/-- corelib.c: (function, template, opcode, nullary constant / invert flag, unary constant) -/")
     o.append("def coreFns : List (String × String × String × Int × Int) := [\n  %s]\n" %
              ",\n  ".join("(%s, %s, %s, %s, %s)" % (_s(a), _s(b), _s(c), "(%d)" % d if d < 0 else d, "(%d)" % e if e < 0 else e) for a, b, c, d, e in g["coreFns"]))
+    o.append("/-- math.c: (registered name, function applied to the unwrapped number(s)): libm function through the MATHOP macros, or janet_gcd / janet_lcm\n"
+             "    (bodies matched structurally by the translator: NaN test, infinity test, `while (y != 0) { t = y; y = fmod(x, y); x = t; } return x`; `(x / gcd) * y`) -/")
+    o.append("def mathReg : List (String × String) := [\n  %s]\n" % ",\n  ".join("(%s, %s)" % (_s(a), _s(b)) for a, b in g["mathReg"]))
     o.append("end JanetModel.Gen.Int64\n")
     return "\n".join(o)
 
